@@ -29,6 +29,7 @@ class Result:
         self.reviewed = []  # (key, reason)
         self.samples = []
         self.counts = {}
+        self.aliases = {}
         self.floors = {}  # name -> (seen, floor)
 
     def ok(self, n=1, sample=None):
@@ -37,9 +38,13 @@ class Result:
         if sample is not None and len(self.samples) < 6:
             self.samples.append(sample)
 
-    def violate(self, key, msg, n=1):
+    def violate(self, key, msg, n=1, aliases=()):
+        """aliases: the keys the same construct would have had before being moved into a helper with a single caller; they
+        are consulted only when matching the known-findings file (a relocated known finding is still that finding)"""
         self.examined += n
         self.violations.append((key, msg))
+        if aliases:
+            self.aliases[key] = list(aliases)
 
     def review(self, key, reason):
         self.examined += 1
@@ -157,11 +162,18 @@ def run_property(prop, tier, repo=None, write_evidence=True, quiet=False, ctx=No
     kn = known.get(prop, {})
     new_viol = []
     known_hits = []
+    primary = {norm_key(k) for r in results for k, _m in r.violations}
     for r in results:
+        al = {norm_key(k): [norm_key(a) for a in v] for k, v in getattr(r, "aliases", {}).items()}
         r.violations = [(norm_key(k), m) for k, m in r.violations]
         for key, msg in r.violations:
             if key in kn:
                 known_hits.append((key, kn[key] or msg))
+                continue
+            # relocated known finding: an alias matches a listed key that no construct answers to under its own name any more
+            hit = [a for a in al.get(key, []) if a in kn and a not in primary]
+            if hit:
+                known_hits.append((hit[0], (kn[hit[0]] or msg) + " [now at %s]" % key.split("|")[1].split("::")[-1]))
             else:
                 new_viol.append((r.rule, key, msg))
     wall = round(time.time() - t0, 2)
